@@ -4,6 +4,7 @@ from __future__ import annotations
 import ast
 import json
 import random
+import re
 import time
 
 from . import common, pre5, tr_regex
@@ -148,6 +149,14 @@ def run(tier):
             pre = exp[1]
             if "D12b" not in known or not r.get("ok"):
                 fails.append({"kind": kind, "input": s, "returned": r, "expected": "parts including the text before the first marker, or an exception"})
+    # the LOADER itself, executed: generated resolved-shortcode files (well-formed lines only; line markers `#...` in between) are loaded by
+    # load_insn_behavior, rewritten with the same names and other bodies, and loaded again (same object, then a new object): after each load
+    # every insn(NAME, BODY) line of the CURRENT file must be recovered exactly; a file with one malformed line must be rejected
+    try:
+        lf = loader_history(rnd)
+        fails += lf
+    except Exception as e:
+        broken.append(Broken("correspondence", "K5 loader history harness", str(e)[-800:]))
     # known findings (specific witnesses)
     wit = pre5.run_real([("split", "xinsn(A, {})"), ("compound", "{RdV = 1; " + M + "{ P0 = 1; }" + M + " RdV = 2; }")])
     if "D12a" in known and wit[0].get("ok"):
@@ -173,6 +182,73 @@ def run(tier):
                     "samples": [{"input": cases[i][1][:200], "result": py[i]} for i in (0, len(cases) // 2, len(cases) - 1)] if py else [],
                     "broken": [vars(x) for x in broken]}
     return res.finish()
+
+
+LOADER = r"""
+import json, sys, tempfile, contextlib, io
+from pathlib import Path
+from rzilcompiler.Configuration import Conf, InputFile
+from rzilcompiler.Preprocessor.Hexagon.PreprocessorHexagon import PreprocessorHexagon
+req = json.load(sys.stdin)
+tmp = tempfile.NamedTemporaryFile("w", suffix=".h", delete=False); tmp.close()
+orig = Conf.get_path
+def gp(f, *a, **k):
+    if f == InputFile.HEXAGON_PP_SHORTCODE_RESOLVED_H:
+        return Path(tmp.name)
+    return orig(f, *a, **k)
+Conf.get_path = staticmethod(gp)
+out, p = [], None
+for g in req["generations"]:
+    open(tmp.name, "w").write(g["text"])
+    if p is None or g.get("new_object"):
+        p = PreprocessorHexagon(Path(tmp.name))
+    try:
+        with contextlib.redirect_stdout(io.StringIO()):
+            p.load_insn_behavior()
+        out.append({"ok": True, "behaviors": {k: list(v) for k, v in p.behaviors.items()}})
+    except Exception as e:
+        out.append({"ok": False, "exc": type(e).__name__})
+json.dump(out, sys.stdout)
+"""
+
+
+def loader_history(rnd):
+    names = list(dict.fromkeys(gen_name(rnd) for _ in range(14)))
+    names = [n for n in names if re.fullmatch(r"\w+", n)][:10]
+
+    def gen_file(k):
+        lines, exp = ['# 1 "x.h"'], {}
+        for j, n in enumerate(names):
+            if (j + k) % 4 == 0:
+                p1, p2 = "{ P0 = %d; }" % (j + k), " RdV = %d; " % (j * 3 + k)
+                body = "{" + M + p1 + M + p2 + "}"
+                exp[n] = [p1, "{" + p2 + "}"]
+            else:
+                body = "{ RdV = (RsV + %d); if (RtV) { f(x, (y)); } }" % (j * 7 + k)
+                exp[n] = [body]
+            lines.append(f"insn({n}, {body})")
+            if j % 3 == 0:
+                lines.append('# 2 "y.h"')
+        return "\n".join(lines) + "\n", exp
+    gens = [gen_file(0), gen_file(1), gen_file(2)]
+    bad_text = gens[2][0].replace("insn(" + names[3] + ",", "  nsn(" + names[3] + ",", 1)
+    req = {"generations": [{"text": gens[0][0]}, {"text": gens[1][0]}, {"text": gens[2][0], "new_object": True}, {"text": bad_text, "new_object": True}]}
+    rc, out = common.sh([common.PY, "-c", LOADER], cwd=common.REPO, env=common.py_env(), input=json.dumps(req), timeout=300)
+    rows = json.loads(out[out.index("[{"):])
+    fails = []
+    for k, (r, (text, exp)) in enumerate(zip(rows[:3], gens)):
+        if not r.get("ok"):
+            fails.append({"kind": "load", "input": text, "returned": r, "expected": "every line loaded", "history": [g[0] for g in gens[:k]]})
+            break
+        wrong = {n: r["behaviors"].get(n) for n in exp if r["behaviors"].get(n) != exp[n]}
+        if wrong:
+            n0 = next(iter(wrong))
+            fails.append({"kind": "load", "input": text, "returned": {n0: wrong[n0]}, "expected": {n0: exp[n0]},
+                          "history": [g[0] for g in gens[:k]], "note": "load number %d in one process" % (k + 1)})
+            break
+    if not fails and len(rows) > 3 and rows[3].get("ok"):
+        fails.append({"kind": "load", "input": bad_text, "returned": "loaded without an exception", "expected": "an exception: one line is not of the form insn(NAME, BODY)"})
+    return fails
 
 
 def replay(path):
